@@ -23,7 +23,14 @@ pub enum SOp {
     /// node builds its byte-preserving copy from the three raw parts of the original (hardware-signer style)
     LoadFromParts { node: u8 },
     /// node loads what another node currently serializes (a forwarded message)
-    Forward { from: u8, to: u8, hex: bool },
+    Forward {
+        from: u8,
+        to: u8,
+        hex: bool,
+        /// a foreign relay re-encodes the message on the way (seed of its encoding choices)
+        #[serde(default)]
+        relay: Option<u64>,
+    },
     SignVkey { node: u8, key: u8, via_helper: bool },
     SignIcarus { node: u8, key: u8, via_helper: bool },
     SignDaedalus { node: u8, key: u8 },
@@ -40,6 +47,9 @@ pub struct Case {
     pub foreign: Option<(u64, u64, u64, u64, u64, u64)>,
     pub ops: Vec<SOp>,
     pub hash_seed: u64,
+    /// the originator hands out a transaction that already carries the wallet's own signatures
+    #[serde(default)]
+    pub presigned: bool,
 }
 
 pub struct C04;
@@ -147,7 +157,7 @@ fn gen(seed: u64, tier: Tier) -> Case {
                     SOp::LoadOriginal { node, hex: r.chance(1, 2) }
                 }
             }
-            2 | 3 => SOp::Forward { from: r.below(NODES as u64) as u8, to: node, hex: r.chance(1, 2) },
+            2 | 3 => SOp::Forward { from: r.below(NODES as u64) as u8, to: node, hex: r.chance(1, 2), relay: if r.chance(1, 3) { Some(r.next()) } else { None } },
             4..=7 => SOp::SignVkey { node, key, via_helper: r.chance(1, 2) },
             8 | 9 => SOp::SignIcarus { node, key, via_helper: r.chance(1, 2) },
             10 => SOp::SignDaedalus { node, key },
@@ -155,9 +165,10 @@ fn gen(seed: u64, tier: Tier) -> Case {
             _ => SOp::Merge { from: r.below(NODES as u64) as u8, to: node },
         });
     }
-    Case { session, foreign, ops, hash_seed: r.next() }
+    Case { session, foreign, ops, hash_seed: r.next(), presigned: r.chance(1, 2) }
 }
 
+#[derive(Clone)]
 struct Facts {
     body: Vec<u8>,
     hash: [u8; 32],
@@ -210,6 +221,8 @@ fn facts(bytes: &[u8]) -> Option<Facts> {
 
 struct NodeState {
     tx: csl::FixedTransaction,
+    /// witness-set facts of the message this node loaded: what "untouched" refers to at this node
+    base: Facts,
     /// witnesses this node's copy is expected to hold beyond the original ones
     added_vkeys: BTreeSet<(Vec<u8>, Vec<u8>)>,
     added_boots: BTreeSet<Vec<u8>>,
@@ -263,6 +276,8 @@ fn check_node(step: usize, id: u8, ns: &NodeState, f: &Facts, out: &mut Outcome)
     let touched_v = !ns.added_vkeys.is_empty();
     let touched_b = !ns.added_boots.is_empty();
     let ws = v.ws();
+    // witness-set fields are compared with the message this node loaded
+    let f = &ns.base;
     for (k, orig) in &f.ws_fields {
         if (*k == 0 && touched_v) || (*k == 2 && touched_b) {
             continue;
@@ -362,7 +377,17 @@ fn execute(c: &Case) -> Outcome {
     out.steps = h.steps;
     out.digest = h.digest;
     let lib_bytes = match h.built.iter().find(|b| b.full) {
-        Some(b) => b.bytes.clone(),
+        Some(b) => {
+            let mut bytes = b.bytes.clone();
+            if c.presigned {
+                // the wallet signs before it hands the transaction to the co-signers
+                if let Ok(sg) = wallet::sign(&c.session, &h, b) {
+                    out.count("c04.presigned_originals", 1);
+                    bytes = sg.bytes;
+                }
+            }
+            bytes
+        }
         None => {
             out.count("c04.no_transaction_built", 1);
             return out;
@@ -373,12 +398,21 @@ fn execute(c: &Case) -> Outcome {
     // 2. optionally a foreign peer re-encodes it
     let mut original = lib_bytes.clone();
     if let Some((pw, pi, pc, pp, pu, seed)) = c.foreign {
-        if let Ok(n) = cbor::parse(&lib_bytes) {
+        if let (Ok(n), Ok(v)) = (cbor::parse(&lib_bytes), TxView::parse(&lib_bytes)) {
             let mut r = Rng::new(seed);
             let mut f = Foreign::new(&mut r, pw, pi, pc, pp);
             let mut b = vec![];
             let mut untag = 0u32;
-            foreign_emit(&n, &mut f, pu, &mut b, &mut untag);
+            if c.presigned {
+                // signatures were made over the body as the wallet wrote it: the peer may only
+                // re-serialize the witness set, body and auxiliary data travel verbatim
+                b.push(0x84);
+                b.extend_from_slice(v.span(v.body()));
+                foreign_emit(v.ws(), &mut f, pu, &mut b, &mut untag);
+                b.extend_from_slice(&lib_bytes[v.ws().end..]);
+            } else {
+                foreign_emit(&n, &mut f, pu, &mut b, &mut untag);
+            }
             let st = f.stats.clone();
             out.count("fault.F8_wide_heads", st.wide_heads as u64);
             out.count("fault.F8_indefinite_containers", st.indef_containers as u64);
@@ -419,7 +453,7 @@ fn execute(c: &Case) -> Outcome {
                     if nodes[*node as usize].is_some() {
                         out.count("fault.F6_duplicate_delivery_of_original", 1);
                     }
-                    nodes[*node as usize] = Some(NodeState { tx, added_vkeys: BTreeSet::new(), added_boots: BTreeSet::new() });
+                    nodes[*node as usize] = Some(NodeState { tx, base: f.clone(), added_vkeys: BTreeSet::new(), added_boots: BTreeSet::new() });
                     out.nontrivial = true;
                 }
                 Err(exec::Res::Panic(p)) => {
@@ -438,7 +472,7 @@ fn execute(c: &Case) -> Outcome {
                     match r {
                         Ok(tx) => {
                             out.count("c04.loaded_from_parts", 1);
-                            nodes[*node as usize] = Some(NodeState { tx, added_vkeys: BTreeSet::new(), added_boots: BTreeSet::new() });
+                            nodes[*node as usize] = Some(NodeState { tx, base: f.clone(), added_vkeys: BTreeSet::new(), added_boots: BTreeSet::new() });
                             out.nontrivial = true;
                         }
                         Err(exec::Res::Panic(_)) => out.count("panics_observed", 1),
@@ -446,14 +480,33 @@ fn execute(c: &Case) -> Outcome {
                     }
                 }
             }
-            SOp::Forward { from, to, hex } => {
+            SOp::Forward { from, to, hex, relay } => {
                 if let Some(src) = &nodes[*from as usize] {
-                    let msg = src.tx.to_bytes();
-                    let (av, ab) = (src.added_vkeys.clone(), src.added_boots.clone());
+                    let mut msg = src.tx.to_bytes();
                     out.count("fault.F7_forwarded_messages", 1);
-                    match load(&msg, *hex) {
-                        Ok(tx) => nodes[*to as usize] = Some(NodeState { tx, added_vkeys: av, added_boots: ab }),
-                        Err(e) => out.violate("C04.reload", "own_serialization_rejected", format!("step {}: node {} cannot load what node {} serialized: {}", step, to, from, e)),
+                    let mut relayed = false;
+                    if let (Some(seed), Some((pw, pi, pc, pp, pu, _))) = (relay, c.foreign) {
+                        if let Ok(v) = TxView::parse(&msg) {
+                            // the relay re-serializes the witness set only; body and auxiliary data travel verbatim
+                            // (re-encoding the body would change the transaction, not test the library)
+                            let mut r = Rng::new(*seed);
+                            let mut fe = Foreign::new(&mut r, pw, pi, pc, pp);
+                            let mut b = vec![0x84];
+                            b.extend_from_slice(v.span(v.body()));
+                            let mut untag = 0u32;
+                            foreign_emit(v.ws(), &mut fe, pu, &mut b, &mut untag);
+                            b.extend_from_slice(&msg[v.ws().end..]);
+                            if b != msg && load(&b, false).is_ok() {
+                                msg = b;
+                                relayed = true;
+                                out.count("fault.F8_relay_reencoded_message", 1);
+                            }
+                        }
+                    }
+                    match (load(&msg, *hex), facts(&msg)) {
+                        (Ok(tx), Some(base)) => nodes[*to as usize] = Some(NodeState { tx, base, added_vkeys: BTreeSet::new(), added_boots: BTreeSet::new() }),
+                        (Err(e), _) if !relayed => out.violate("C04.reload", "own_serialization_rejected", format!("step {}: node {} cannot load what node {} serialized: {}", step, to, from, e)),
+                        _ => {}
                     }
                 }
             }
@@ -469,7 +522,8 @@ fn execute(c: &Case) -> Outcome {
                     // Ed25519 signatures are deterministic: the expected witness is known
                     let want = csl::make_vkey_witness(&csl::TransactionHash::from_bytes(f.hash.to_vec()).unwrap(), &km.sk);
                     let pair = (want.vkey().public_key().as_bytes(), want.signature().to_bytes());
-                    if f.vkeys.contains(&pair) || !ns.added_vkeys.insert(pair) {
+                    let known = ns.base.vkeys.contains(&pair);
+                    if !ns.added_vkeys.insert(pair) || known {
                         out.count("fault.F6_same_signer_signs_again", 1);
                     }
                     out.count("c04.signatures_added", 1);
@@ -486,7 +540,8 @@ fn execute(c: &Case) -> Outcome {
                     }
                     let want = csl::make_icarus_bootstrap_witness(&csl::TransactionHash::from_bytes(f.hash.to_vec()).unwrap(), &bm.addr, &bm.xprv);
                     let wb = plain(&want.to_bytes());
-                    if f.boots.contains(&wb) || !ns.added_boots.insert(wb) {
+                    let known = ns.base.boots.contains(&wb);
+                    if !ns.added_boots.insert(wb) || known {
                         out.count("fault.F6_same_signer_signs_again", 1);
                     }
                     out.count("c04.bootstrap_signatures_added", 1);
@@ -499,7 +554,8 @@ fn execute(c: &Case) -> Outcome {
                         let _ = ns.tx.sign_and_add_daedalus_bootstrap_signature(&bm.addr, &dk);
                         let want = csl::make_daedalus_bootstrap_witness(&csl::TransactionHash::from_bytes(f.hash.to_vec()).unwrap(), &bm.addr, &dk);
                         let wb = plain(&want.to_bytes());
-                        if f.boots.contains(&wb) || !ns.added_boots.insert(wb) {
+                        let known = ns.base.boots.contains(&wb);
+                        if !ns.added_boots.insert(wb) || known {
                             out.count("fault.F6_same_signer_signs_again", 1);
                         }
                         out.count("c04.daedalus_signatures_added", 1);
@@ -510,9 +566,15 @@ fn execute(c: &Case) -> Outcome {
                 if let Some(ns) = nodes[*node as usize].as_mut() {
                     out.count("fault.F5_restart_between_load_and_sign", 1);
                     let msg = ns.tx.to_bytes();
-                    match load(&msg, *hex) {
-                        Ok(tx) => ns.tx = tx,
-                        Err(e) => out.violate("C04.reload", "own_serialization_rejected", format!("step {}: node {} cannot reload its own bytes: {}", step, node, e)),
+                    match (load(&msg, *hex), facts(&msg)) {
+                        (Ok(tx), Some(base)) => {
+                            ns.tx = tx;
+                            ns.base = base;
+                            ns.added_vkeys.clear();
+                            ns.added_boots.clear();
+                        }
+                        (Err(e), _) => out.violate("C04.reload", "own_serialization_rejected", format!("step {}: node {} cannot reload its own bytes: {}", step, node, e)),
+                        _ => {}
                     }
                 }
             }
@@ -520,7 +582,10 @@ fn execute(c: &Case) -> Outcome {
                 if from != to {
                     if let (Some(src), true) = (&nodes[*from as usize], nodes[*to as usize].is_some()) {
                         let wsx = src.tx.witness_set();
-                        let (av, ab) = (src.added_vkeys.clone(), src.added_boots.clone());
+                        let mut av = src.base.vkeys.clone();
+                        av.extend(src.added_vkeys.iter().cloned());
+                        let mut ab = src.base.boots.clone();
+                        ab.extend(src.added_boots.iter().cloned());
                         let dst = nodes[*to as usize].as_mut().unwrap();
                         if let Some(vk) = wsx.vkeys() {
                             for i in 0..vk.len() {
@@ -537,16 +602,7 @@ fn execute(c: &Case) -> Outcome {
                         let touched_b = wsx.bootstraps().map_or(false, |v| v.len() > 0);
                         dst.added_vkeys.extend(av);
                         dst.added_boots.extend(ab);
-                        if touched_v && dst.added_vkeys.is_empty() {
-                            // only original witnesses were re-added: the field was touched with no new content;
-                            // mark it touched by inserting nothing but remembering the fact through a sentinel-free path
-                            out.count("c04.merge_readded_only_original_witnesses", 1);
-                            // re-adding originals may legitimately re-encode field 0; record as touched
-                            dst.added_vkeys.extend(f.vkeys.iter().cloned());
-                        }
-                        if touched_b && dst.added_boots.is_empty() {
-                            dst.added_boots.extend(f.boots.iter().cloned());
-                        }
+                        let _ = (touched_v, touched_b);
                         out.count("fault.F6_merge_witness_by_witness", 1);
                     }
                 }
